@@ -218,9 +218,22 @@ fn mutate(rng: &mut Rng, mut f: Vec<u8>) -> Vec<u8> {
         return f;
     }
     let i = rng.below(f.len() as u64) as usize;
-    match rng.below(7) {
+    match rng.below(8) {
         0 => {
             f.truncate(i);
+        }
+        7 => {
+            // more corners on a face line (a polygon): in or out of range, tiny or huge
+            if let Some(j) = (i..f.len()).find(|&j| f[j] == b'f') {
+                let e = (j..f.len()).find(|&e| f[e] == b'\n' || f[e] == b'\r' || f[e] == b'#').unwrap_or(f.len());
+                let mut add = vec![];
+                for _ in 0..1 + rng.below(3) {
+                    add.extend(*rng.pick(&[&b" 1"[..], b" 2", b" 4", b" 7", b" 99", b" 4294967296", b" 18446744073709551615", b" 3/1/1", b" 0"]));
+                }
+                for (k, b) in add.iter().enumerate() {
+                    f.insert(e + k, *b);
+                }
+            }
         }
         1 => {
             f.remove(i);
@@ -260,7 +273,9 @@ pub fn gen(args: &Args, out: &mut dyn Write) {
         writeln!(out, "{}", json!({"k": format!("o{}-{}", args.seed, k), "via": via, "bytes": bytes})).unwrap();
         k += 1;
     };
-    let specials: [&[u8]; 14] = [
+    let specials: [&[u8]; 18] = [
+        b"v 0 0 0\nv 1 0 0\nv 0 1 0\nf 1 2 3 4", b"v 1 2 3\nf 1 1 1 2", b"v 0 0 0\nv 1 0 0\nv 0 1 0\nv 1 1 0\nf 1 2 3 4 99\n",
+        b"v 0 0 0\nv 1 0 0\nv 0 1 0\nv 1 1 0\nf 1 2 3 4",
         b"f 1 2 3", b"f 1 2 3\n", b"f 0 1 2\nv 0 0 0\nv 1 0 0", b"v 0 0 0\nf 0 0 0", b"f 1 1 1\nv 1 2 3",
         b"v 0 0 0\nf 1 1 2", b"f 18446744073709551615 1 1\nv 0 0 0", b"v 0 0 0\nf 1/1 1/1 1/1", b"v 0 0 0\nvt 0 0\nf 1/2 1/1 1/1",
         b"v 0 0 0\nf 1//1 1//1 1//1", b"", b"\n\n", b"v 1 2 3\nv 4 5 6\nv 7 8 9\nf 3 2 1", b"f 1 2 3\nf 1 2 3\n",
